@@ -135,6 +135,8 @@ extern "C" int h_parse(void) {
         if (!(code >= 1 && code <= 6)) verif_fail("C01: failure code is not a parse error code");
         if ((code == sonic_json::kParseErrorInfinity) != (rc == ref::R_INF)) verif_fail("C01: infinity error does not match number overflow");
         if (code >= 4 && code <= 6 && rc == ref::R_INF) verif_fail("C01: string fault code on a text whose first fault is a number");
+        if ((rc == ref::R_CTRL || rc == ref::R_ESC || rc == ref::R_UNI) && !(code >= 4 && code <= 6))
+          verif_fail("C01: a fault inside a string literal is not reported with a string fault code");
         if (doc.GetErrorOffset() > n) verif_fail("C01: error offset beyond the input length");
       }
     }
